@@ -9,7 +9,7 @@
 use crate::rng::Rng;
 
 pub const BRANCHES: usize = 12;
-pub const GLUES: usize = 23;
+pub const GLUES: usize = 25;
 
 #[derive(Clone, Debug)]
 pub struct Shape {
@@ -62,6 +62,7 @@ pub const GLUE_NAMES: [&str; GLUES] =
     "let", "else-branch", "clause", "operand", "print", "call-argument", "closure", "destructor", "objects-by-match", "label-result",
     "one-clause-match-of-conditional", "one-clause-match-of-match", "body-of-applied-object", "bound-position", "scrutinee-argument", "condition", "goto-argument", "unused-let-of-call", "unused-let-of-branch", "let-then-operation-over-rest", "let-then-constructor-over-rest",
     "let-of-destructor-result-of-data-type", "let-of-destructor-result-then-clause",
+    "clause-of-match-on-label-block", "argument-of-destructor-on-label-block",
 ];
 
 const DECLS: &str = "data P2 { Tup(a: i64, b: i64) }\ndata T3 { A, B, C }\ndata T5 { K1, K2(x: i64), K3(x: i64, y: i64), K4, K5(t: T3) }\ncodata Obj3 { m1: i64, m2(x: i64): i64, m3: Obj3 }\ncodata Fun { ap(x: i64): i64 }\ncodata Mk { get(x: i64): T3, get5(x: i64): T5 }\ndef mkr(n: i64): Mk { new { get(x) => mk(x + n), get5(x) => mk5(x + n) } }\ndef mk(n: i64): T3 { if n == 0 { A } else { if n == 1 { B } else { C } } }\ndef mk5(n: i64): T5 { if n == 0 { K1 } else { if n == 1 { K2(n) } else { if n == 2 { K3(n, n) } else { if n == 3 { K4 } else { K5(mk(n)) } } } } }\ndef obj(n: i64): Obj3 { new { m1 => n, m2(x) => x + n, m3 => obj(n + 1) } }\ndef id(x: i64): i64 { x }\ndef add3(a: i64, b: i64, c: i64): i64 { a + (b + c) }\n";
@@ -127,6 +128,9 @@ fn glue(g: usize, b: usize, i: usize, prev: &str, rest: &dyn Fn(&str) -> String)
         // a value of a data type with several constructors that is the result of a destructor of a
         // variable (the producer side of the cut is a bare invoke), the rest after / inside its match
         21 => format!("let m{i}: Mk = mkr({i});\n  let t{i}: T3 = m{i}.get({be});\n  let {v}: i64 = t{i}.case {{ A => 1, B => {prev}, C => 3 }};\n  {}", rest(&v)),
+        // the scrutinee / the receiver is directly a label block that reaches its label in two places
+        23 => format!("let {v}: i64 = {be};\n  (label s{i} {{ if {v} == {i} {{ goto s{i}(mk({i})) }} else {{ mk({v}) }} }}).case {{ A => {i}, B => {v}, C => {} }}", rest(&v)),
+        24 => format!("let {v}: i64 = {be};\n  (label s{i} {{ if {v} == {i} {{ goto s{i}(obj({i})) }} else {{ obj({v}) }} }}).m2(({}))", rest(&v)),
         _ => format!("let m{i}: Mk = mkr({i});\n  let {v}: i64 = {be};\n  let t{i}: T5 = m{i}.get5({v});\n  t{i}.case {{ K1 => 1, K2(p{i}) => p{i}, K3(p{i}, q{i}) => {v}, K4 => {}, K5(u{i}) => 5 }}", rest(&v)),
     }
 }
